@@ -156,7 +156,7 @@ pub fn parse_ev(e: &Sexp) -> Option<Ev> {
 }
 
 pub fn mk_err(id: i64) -> RxError {
-  RxError::from_error(EP { id })
+  mk_payload_err(id)
 }
 
 pub type F1 = Arc<dyn Fn(V) -> V + Send + Sync>;
@@ -394,7 +394,7 @@ pub fn parse_rs(sh: &Shared, e: &Sexp) -> Option<Arc<dyn Fn(RxError) -> Ob + Sen
     return Some(match a {
       "rs_empty" => Arc::new(move |_| { let _t = &t; observables::empty() }),
       "rs_same" => Arc::new(move |e: RxError| { let _t = &t; observables::error(e) }),
-      "rs_payload" => Arc::new(move |e: RxError| { let _t = &t; observables::just(V::int(e.downcast_ref::<EP>().map(|p| p.id).unwrap_or(-1))) }),
+      "rs_payload" => Arc::new(move |e: RxError| { let _t = &t; observables::just(V::int(err_id(&e).parse::<i64>().unwrap_or(-1))) }),
       _ => return None,
     });
   }
@@ -465,7 +465,12 @@ pub fn pipe(sh: &Shared, e: &Sexp) -> Option<Ob> {
       observables::defer(move || o.clone())
     }
     ("from_result_ok", 1) => observables::from_result::<V, EP>(Ok(parse_data(&a[0])?)),
-    ("from_result_err", 1) => observables::from_result::<V, EP>(Err(EP { id: a[0].int()? })),
+    ("from_result_err", 1) => match a[0].int()? {
+      id @ 1000..=1999 => observables::from_result::<V, RxError>(Err(RxError::from_error(EP { id }))),
+      id @ 2000..=2999 => observables::from_result::<V, String>(Err(format!("payload-{}", id))),
+      id @ 3000..=3999 => observables::from_result::<V, i64>(Err(id)),
+      id => observables::from_result::<V, EP>(Err(EP { id })),
+    },
     ("cold", _) => script_source(sh, a[0].nat()?, true, a[1..].iter().map(parse_ev).collect::<Option<Vec<_>>>()?),
     ("rude", _) => script_source(sh, a[0].nat()?, false, a[1..].iter().map(parse_ev).collect::<Option<Vec<_>>>()?),
     ("flaky", _) => {
@@ -935,6 +940,34 @@ pub fn step(sh: &Shared, e: &Sexp) -> Option<()> {
       Some("unwind") => user_unsub_using(sh, a[0].nat()?, true),
       _ => return None,
     },
+    // C05: SEVERAL handles (clones, a Using guard) of ONE Subscription built with the public constructor: its teardown
+    // closure runs at most once however many handles are unsubscribed; is_subscribed is shared by all handles
+    "subhandles" => {
+      let n = a[0].nat()?;
+      let calls = Arc::new(Mutex::new(0i64));
+      let alive = Arc::new(Mutex::new(true));
+      let (c2, a2, a3) = (calls.clone(), alive.clone(), alive.clone());
+      let sub = Subscription::new(
+        move || {
+          *c2.lock().unwrap() += 1;
+          *a2.lock().unwrap() = false;
+        },
+        move || *a3.lock().unwrap(),
+      );
+      let handles: Vec<_> = (0..n).map(|_| sub.clone()).collect();
+      sh.rec(format!("x200:{}", if sub.is_subscribed() { 1 } else { 0 }));
+      for (i, h) in handles.into_iter().enumerate() {
+        if i % 2 == 0 {
+          h.unsubscribe();
+        } else {
+          drop(utils::Using::new(h));
+        }
+        sh.rec(format!("x201:{}", *calls.lock().unwrap()));
+      }
+      sub.unsubscribe();
+      sh.rec(format!("x201:{}", *calls.lock().unwrap()));
+      sh.rec(format!("x200:{}", if sub.is_subscribed() { 1 } else { 0 }));
+    }
     // C08, last clause: the default scheduler runs the task synchronously in `post` (same thread, before post returns)
     "dpost" => {
       use another_rxrust::schedulers::scheduler::IScheduler;
